@@ -176,6 +176,8 @@ def arrow_type(t: Any) -> pa.DataType:
         return pa.decimal128(t[1], t[2])
     if k == "struct":
         return pa.struct([pa.field(n, arrow_type(ty), nullable=nl) for n, ty, nl in t[1]])
+    if k == "ree":
+        return pa.run_end_encoded(arrow_type(t[1]), arrow_type(t[2]))
     raise ValueError(t)
 
 
@@ -194,6 +196,8 @@ def type_canon(t: pa.DataType) -> str:
         return f"large_list<{type_canon(t.value_type)}{'' if t.value_field.nullable else '!'}>"
     if T.is_list(t):
         return f"list<{type_canon(t.value_type)}{'' if t.value_field.nullable else '!'}>"
+    if T.is_run_end_encoded(t):
+        return f"ree<{type_canon(t.run_end_type)},{type_canon(t.value_type)}>"
     if T.is_struct(t):
         return "struct<" + ",".join(f"{f.name}:{type_canon(f.type)}{'' if f.nullable else '!'}" for f in t) + ">"
     return str(t)
@@ -303,7 +307,7 @@ def raw_request(method: str, cols: list[dict[str, Any]], rows: int = 1, protocol
     arrays = []
     for c in cols:
         t = arrow_type(c["ty"])
-        fields.append(pa.field(c["name"], t, nullable=c["nullable"]))
+        fields.append(pa.field(c["name"], t, nullable=c["nullable"], metadata={b"k": b"v"} if c.get("meta") else None))
         if isinstance(c["val"], dict) and "raw" in c["val"]:
             # a utf8 column holding arbitrary bytes (only IPC validation can tell)
             data = bytes.fromhex(c["val"]["raw"])
@@ -338,6 +342,10 @@ def dec_wire(j: Any) -> Any:
             return [dec_wire(x) for x in j["l"]]
         if "t" in j:
             return tuple(dec_wire(x) for x in j["t"])
+        if "dec" in j:
+            import decimal
+
+            return decimal.Decimal(j["dec"])
     raise TypeError(j)
 
 
@@ -352,6 +360,10 @@ def enc_wire(v: Any) -> Any:
         return {"t": [enc_wire(x) for x in v]}
     if isinstance(v, list):
         return {"l": [enc_wire(x) for x in v]}
+    import decimal
+
+    if isinstance(v, decimal.Decimal):
+        return {"dec": str(v)}
     raise TypeError(type(v))
 
 
